@@ -230,12 +230,36 @@ def updateSize (d : Dialect) (f : Bytes) (off old : Nat) (diff : Int) : Except P
   else .ok (writeAt f (off + 4) (enc d n.toNat), n.toNat)
 
 /-- `root.insert_chunk(id)` (no data): a header with size 0 is inserted where the root's data ends —
-or where the file ends, if that is earlier —, parsed back, the root's size grows by the chunk's
+or where the file ends, if that is earlier; behind the last sub-chunk in damaged files, see below —, parsed back, the root's size grows by the chunk's
 size, and the chunk is appended to the list `subchunks()` returns (which is walked again when it
 was empty).  Gives the file, the root's new `data_size` and the list. -/
-def insertChunk (d : Dialect) (f : Bytes) (rootSize : Nat) (recs : List Rec) :
+def insertPrep (d : Dialect) (f : Bytes) (rootSize : Nat) (recs : List Rec) :
+    Except PyErr (Bytes × Nat × Nat × List Rec) :=
+  let next0 := hs d + actual f (hs d) rootSize
+  -- `subchunks = self.subchunks()` (walked when the list is still empty)
+  match (if recs.isEmpty then walk d f rootSize else .ok recs) with
+  | .error e => .error e
+  | .ok recs0 =>
+    -- damaged files (the last sub-chunk lacks its pad byte, or reaches beyond the root as declared): the
+    -- missing pad byte is written, the root grows to the end of its last sub-chunk, the new chunk goes there
+    match recs0.getLast? with
+    | none => .ok (f, rootSize, next0, recs0)
+    | some last =>
+      let lastEnd := last.offset + last.size d
+      if lastEnd > next0 then
+        let f' := if lastEnd = f.length + 1 then f ++ [0] else f
+        if lastEnd ≤ f'.length then
+          if lastEnd > hs d + rootSize then
+            match updateSize d f' 0 rootSize ((lastEnd : Int) - (hs d + rootSize : Nat)) with
+            | .error e => .error e
+            | .ok (f'', rs') => .ok (f'', rs', lastEnd, recs0)
+          else .ok (f', rootSize, lastEnd, recs0)
+        else .ok (f', rootSize, next0, recs0)
+      else .ok (f, rootSize, next0, recs0)
+
+/-- the insertion proper, at `next` -/
+def insertAt (d : Dialect) (f : Bytes) (rootSize next : Nat) (recs : List Rec) :
     Except PyErr (Bytes × Nat × List Rec) :=
-  let next := hs d + actual f (hs d) rootSize
   let f1 := f.take next ++ (d.newId ++ enc d 0) ++ f.drop next
   match parseAt d f1 next with
   | .error e => .error e
@@ -247,6 +271,12 @@ def insertChunk (d : Dialect) (f : Bytes) (rootSize : Nat) (recs : List Rec) :
       match (if recs.isEmpty then walk d f2 rootSize' else .ok recs) with
       | .error e => .error e
       | .ok recs' => .ok (f2, rootSize', recs' ++ [c])
+
+def insertChunk (d : Dialect) (f : Bytes) (rootSize : Nat) (recs : List Rec) :
+    Except PyErr (Bytes × Nat × List Rec) :=
+  match insertPrep d f rootSize recs with
+  | .error e => .error e
+  | .ok (fa, rootSizeA, next, recs0) => insertAt d fa rootSizeA next recs0
 
 /-- the rest of `save` once the chunk `c` has been looked up: `_prepare_data(fileobj, c.data_offset,
 c.data_size, …)`, `c.resize(len(data))`, `c.write(data)`.  The writes (chunk size, root size, data,
